@@ -1,5 +1,227 @@
 /-
-C08 — property theorems (stub: no theorem stated yet, so no obligation is counted).
+C08 — BGZF output is spec-conformant, gzip-compatible, deterministic and EOF-marked.
+PROPERTY THEOREMS ONLY (helper lemmas live in Hts.Lemmas.Bgzf*).  Every statement quantifies over all
+codecs satisfying the laws, all header settings, all payloads and all write scripts.
+
+`Member.writeBlock` mirrors compressor.writeBlock WITH the repair fixes/C08-1-bsize-search.diff
+(search for "BC\2\0" from the extra field on); on the unrepaired tree the conformance theorem is false
+(`orig_search_witness` pins the counterexample the check also finds on the implementation).
+Determinism across wc is NOT a theorem here: the sequential model has no wc; that clause is owned by
+C12 (`lts_output_deterministic`) and is checked here by correspondence only (byte-identical outputs).
 -/
+import Hts.Lemmas.BgzfWriter
+import Hts.Lemmas.BgzfStream
+import Hts.Props.C01
 namespace Hts.Props.C08
+open Hts.Model Hts.Model.Member Hts.Spec
+open Hts.Model.BgzfWriter (BlockSize MaxBlockSize Op hasClose accepted)
+open Hts.Model.BgzfWriter (after)
+
+/-! ### one member -/
+
+/-- For every header setting and payload for which `writeBlock` succeeds (payload at most BlockSize,
+user Extra a well-formed sub-field sequence): the bytes, followed by anything, parse under the RFC 1952
+grammar as one member that carries the payload, occupies exactly those bytes and satisfies the BGZF
+constraints (BC sub-field = size - 1, size ≤ 64 KiB, payload ≤ 65280).  No hypothesis on ModTime/OS. -/
+theorem member_conformant (c : Codec) (h : Header) (p m rest : List Byte)
+    (hw : writeBlock c.toCodecFns h p = .ok m) (hx : WFExtra h) (hp : p.length ≤ BlockSize) :
+    ∃ M, Rfc1952.parseMember (ext c.toCodecFns) (m ++ rest) = some (M, rest) ∧ Rfc1952.IsBgzf M ∧
+      M.data = p ∧ M.size = m.length ∧ M.mtime = h.mtime % 2 ^ 32 ∧ M.os = h.os.toNat := by
+  have hf := (writeBlock_ok_iff c.toCodecFns h p).mp ⟨m, hw⟩
+  rw [writeBlock_of_fits _ _ _ hf] at hw
+  cases hw
+  refine ⟨specMember c.toCodecFns h p (memberLen c.toCodecFns h p - 1), ?_, ?_, rfl, ?_, rfl, rfl⟩
+  · exact parseMember_member c h p _ rest hf.1
+  · exact isBgzf_specMember c.toCodecFns h p hx hf.2 hp
+  · simp [specMember, mb, memberBytes_length]
+
+/-- Without Name and Comment the member has exactly the header the SAM specification tabulates (FLG = 4). -/
+theorem member_strict (c : Codec) (h : Header) (p m rest : List Byte)
+    (hw : writeBlock c.toCodecFns h p = .ok m) (hx : WFExtra h) (hp : p.length ≤ BlockSize)
+    (hn : h.name = []) (hc : h.comment = []) :
+    ∃ M, Rfc1952.parseMember (ext c.toCodecFns) (m ++ rest) = some (M, rest) ∧ Rfc1952.IsStrictBgzf M := by
+  have hf := (writeBlock_ok_iff c.toCodecFns h p).mp ⟨m, hw⟩
+  rw [writeBlock_of_fits _ _ _ hf] at hw
+  cases hw
+  exact ⟨_, parseMember_member c h p _ rest hf.1,
+    isBgzf_specMember c.toCodecFns h p hx hf.2 hp, specMember_strict _ _ _ _ hn hc⟩
+
+/-- `writeBlock` succeeds exactly when gzip accepts the header and the member is at most 64 KiB; it
+reports ErrBlockOverflow exactly when gzip accepts the header and the member would be longer, a gzip
+error exactly when gzip refuses the header, and never "no BC sub-field". -/
+theorem overflow_refused (c : CodecFns) (h : Header) (p : List Byte) :
+    ((∃ m, writeBlock c h p = .ok m) ↔ (HdrOK h ∧ memberLen c h p ≤ MaxBlockSize)) ∧
+    (writeBlock c h p = .error .overflow ↔ (HdrOK h ∧ MaxBlockSize < memberLen c h p)) ∧
+    (writeBlock c h p = .error .gzip ↔ ¬ HdrOK h) ∧
+    writeBlock c h p ≠ .error .noBC := by
+  rcases writeBlock_cases c h p with ⟨hk, hl, hw⟩ | ⟨hk, hl, hw⟩ | ⟨hk, hw⟩
+  · refine ⟨⟨fun _ => ⟨hk, hl⟩, fun _ => ⟨_, hw⟩⟩, ⟨fun e => ?_, fun e => ?_⟩, ⟨fun e => ?_, fun e => absurd hk e⟩, ?_⟩
+    · rw [hw] at e; cases e
+    · have := e.2; omega
+    · rw [hw] at e; cases e
+    · rw [hw]; intro e; cases e
+  · refine ⟨⟨fun ⟨m, e⟩ => ?_, fun e => ?_⟩, ⟨fun _ => ⟨hk, hl⟩, fun _ => hw⟩, ⟨fun e => ?_, fun e => absurd hk e⟩, ?_⟩
+    · rw [hw] at e; cases e
+    · have := e.2; omega
+    · rw [hw] at e; cases e
+    · rw [hw]; intro e; cases e
+  · refine ⟨⟨fun ⟨m, e⟩ => ?_, fun e => absurd e.1 hk⟩, ⟨fun e => ?_, fun e => absurd e.1 hk⟩, ⟨fun _ => hk, fun _ => hw⟩, ?_⟩
+    · rw [hw] at e; cases e
+    · rw [hw] at e; cases e
+    · rw [hw]; intro e; cases e
+
+/-- The written member is exactly as long as `memberLen` says, so the 64 KiB test of `writeBlock` is a test
+on header length + DEFLATE length + 8. -/
+theorem member_length (c : CodecFns) (h : Header) (p m : List Byte) (hw : writeBlock c h p = .ok m) :
+    m.length = 18 + h.extra.length + (zbytes h.name).length + (zbytes h.comment).length + (c.deflate p).length + 8 ∧
+    m.length ≤ MaxBlockSize := by
+  have hf := (writeBlock_ok_iff c h p).mp ⟨m, hw⟩
+  rw [writeBlock_of_fits _ _ _ hf] at hw
+  cases hw
+  exact ⟨by simp [mb, memberBytes_length, memberLen], by simpa [mb, memberBytes_length] using hf.2⟩
+
+/-! ### whole streams, for every write script -/
+
+/-- Every byte stream the writer produces for a script that closes it — whether Close returned nil or
+not — is a series of gzip members under the RFC 1952 grammar, each satisfying the BGZF constraints
+(the EOF marker included), and their payloads are the written blocks in order. -/
+theorem stream_conformant (c : Codec) (h : Header) (hx : WFExtra h) (wops : List (Op Byte)) (hclose : hasClose wops = true) :
+    ∃ Ms, Rfc1952.parseMembers (ext c.toCodecFns) (output c.toCodecFns h wops).1 = some Ms ∧
+      (∀ M ∈ Ms, Rfc1952.IsBgzf M) ∧
+      Ms.map (·.data) = writtenBlocks c.toCodecFns h wops ++ (if (output c.toCodecFns h wops).2 = none then [[]] else []) := by
+  have hfits := written_fits c.toCodecFns h (after wops).emitted
+  have hpm := parseMembers_rendered c h (writtenBlocks c.toCodecFns h wops) hfits
+    (decide ((output c.toCodecFns h wops).2 = none))
+  rw [output_eq]
+  refine ⟨_, by simpa using hpm, ?_, ?_⟩
+  · intro M hM
+    rcases List.mem_append.mp hM with h' | h'
+    · obtain ⟨p, hp, rfl⟩ := List.mem_map.mp h'
+      exact isBgzf_specMember c.toCodecFns h p hx (hfits p hp).2
+        (BgzfWriter.after_blocks_le wops hclose p (writtenBlocks_sub c.toCodecFns h wops p hp))
+    · by_cases hn : (output c.toCodecFns h wops).2 = none
+      · simp [hn] at h'; subst h'; exact isBgzf_marker.1
+      · simp [hn] at h'
+  · by_cases hn : (output c.toCodecFns h wops).2 = none <;> simp [hn, specMember, markerMember, Function.comp_def]
+
+/-- A standard multi-member gzip decoder expands the output to the written blocks; when Close returned
+nil that is exactly the concatenation of the accepted payloads. -/
+theorem stream_gunzips (c : Codec) (h : Header) (wops : List (Op Byte)) (hclose : hasClose wops = true) :
+    Rfc1952.gunzip (ext c.toCodecFns) (output c.toCodecFns h wops).1 = some (writtenBlocks c.toCodecFns h wops).flatten ∧
+    ((output c.toCodecFns h wops).2 = none →
+      Rfc1952.gunzip (ext c.toCodecFns) (output c.toCodecFns h wops).1 = some (accepted wops)) := by
+  have hfits := written_fits c.toCodecFns h (after wops).emitted
+  have hpm := parseMembers_rendered c h (writtenBlocks c.toCodecFns h wops) hfits
+    (decide ((output c.toCodecFns h wops).2 = none))
+  have hg : Rfc1952.gunzip (ext c.toCodecFns) (output c.toCodecFns h wops).1 = some (writtenBlocks c.toCodecFns h wops).flatten := by
+    rw [output_eq, Rfc1952.gunzip]
+    simp only [decide_eq_true_eq] at hpm
+    rw [hpm]
+    by_cases hn : (output c.toCodecFns h wops).2 = none <;> simp [hn, specMember, markerMember, Function.comp_def]
+  refine ⟨hg, fun hok => ?_⟩
+  rw [hg]
+  have hrn : (render c.toCodecFns h (after wops).emitted).2 = none := by
+    simpa only [output, closeOutput_eq] using hok
+  have hw := (render_snd_none _ _ _).mp hrn
+  have hcl : (after wops).closed = true := by rw [BgzfWriter.after_closed, hclose]
+  have hact := ((C01.writer_blocks wops).2.2 hcl).1
+  have := C01.writer_flatten wops
+  rw [hact] at this
+  simp only [writtenBlocks, hw]
+  simpa using congrArg some this
+
+/-- The output ends with the 28-byte EOF marker if and only if Close returned nil, and `HasEOF` reports
+exactly that.  (No codec law is needed: a stream cut short by an error ends with the ISIZE field of a
+non-empty block, or is empty, because the only possibly empty block is the last one Close queues.) -/
+theorem eof_iff_clean_close (c : CodecFns) (h : Header) (wops : List (Op Byte)) (hclose : hasClose wops = true) :
+    ((output c h wops).2 = none ↔ hasEOF (output c h wops).1 = true) ∧
+    ((output c h wops).2 = none ↔ ∃ front, (output c h wops).1 = front ++ magicBlock) := by
+  have key : (output c h wops).2 ≠ none → hasEOF (output c h wops).1 = false := by
+    intro hne
+    rw [output_eq, if_neg hne, List.append_nil]
+    apply hasEOF_members
+    -- the written blocks are a strict prefix of the queue, hence all data blocks of 1..BlockSize bytes
+    have hcl : (after wops).closed = true := by rw [BgzfWriter.after_closed, hclose]
+    obtain ⟨_, pre, last, hem, hpre, hlast⟩ := (C01.writer_blocks wops).2.2 hcl
+    obtain ⟨e, he⟩ := Option.ne_none_iff_exists'.mp hne
+    have hre : (render c h (after wops).emitted).2 = some e := by
+      simpa only [output, closeOutput_eq] using he
+    obtain ⟨q, rest, hsplit, _⟩ := render_snd_some c h _ e hre
+    intro p hp
+    have hmem : p ∈ pre := by
+      have hpre' : writtenBlocks c h wops ++ q :: rest = pre ++ [last] := by
+        show written c h (after wops).emitted ++ q :: rest = _
+        rw [← hsplit, hem]
+      simp only [writtenBlocks] at hp
+      -- written ++ q :: rest = pre ++ [last]  ⇒  written is a prefix of pre
+      have hlen : (written c h (after wops).emitted).length ≤ pre.length := by
+        have := congrArg List.length hpre'
+        simp [writtenBlocks] at this; omega
+      have : written c h (after wops).emitted = pre.take (written c h (after wops).emitted).length := by
+        have h1 := congrArg (List.take (written c h (after wops).emitted).length) hpre'
+        simp only [writtenBlocks, List.take_left'] at h1
+        rw [List.take_append_of_le_length hlen] at h1
+        simpa using h1
+      rw [this] at hp
+      exact List.mem_of_mem_take hp
+    have := hpre p hmem
+    simp [BlockSize] at this
+    omega
+  constructor
+  · constructor
+    · intro hn; rw [output_eq, if_pos hn]; exact hasEOF_append_marker _
+    · intro ht
+      cases hn : (output c h wops).2 with
+      | none => rfl
+      | some e => rw [key (by simp [hn])] at ht; cases ht
+  · constructor
+    · intro hn; exact ⟨_, by rw [output_eq, if_pos hn]⟩
+    · rintro ⟨front, hf⟩
+      cases hn : (output c h wops).2 with
+      | none => rfl
+      | some e =>
+        have := key (by simp [hn])
+        rw [hf, hasEOF_append_marker] at this
+        cases this
+
+/-- With the writer's default header and a codec within zlib's deflateBound, Close returns nil for every
+script: no block is ever refused (the role of `compressBound(BlockSize) ≤ MaxBlockSize`, bgzf.go:36-44). -/
+theorem default_header_clean_close (c : CodecFns) (hb : Bounded c) (wops : List (Op Byte)) (hclose : hasClose wops = true) :
+    (output c {} wops).2 = none :=
+  default_output_ok c hb wops hclose
+
+/-! ### the defect of the unrepaired search, pinned -/
+
+/-- a toy codec for witnesses: every payload "compresses" to the two bytes 03 00 -/
+def toyCodec : CodecFns :=
+  { deflate := fun _ => [3, 0], inflate := fun s => match s with | 3 :: 0 :: _ => some ([], 2) | _ => none,
+    crc32 := fun _ => 0, xfl := 0 }
+
+/-- On the unrepaired tree (`bytes.Index` over the whole member) the header setting
+ModTime = Unix(0x00024342) makes `writeBlock` succeed with a member whose BC sub-field still holds
+BSIZE = 0: the back-patch went into XFL/OS.  The reader model rejects it, and the same input through the
+repaired `writeBlock` is read back. -/
+theorem orig_search_witness :
+    ∃ m, writeBlockOrig toyCodec { mtime := 0x00024342 } [] = .ok m ∧
+      m.take 18 = [0x1f, 0x8b, 8, 4, 0x42, 0x43, 2, 0, 27, 0, 6, 0, 0x42, 0x43, 2, 0, 0, 0] ∧
+      readMember toyCodec m = none ∧
+      ∃ m', writeBlock toyCodec { mtime := 0x00024342 } [] = .ok m' ∧ readMember toyCodec m' = some ([], []) := by
+  refine ⟨_, rfl, by decide, by decide, _, rfl, by decide⟩
+
+/-! ### non-vacuity (tests, not the claim) -/
+
+example : writeBlock toyCodec {} [] = .ok magicBlock := by rfl
+example : HdrOK { name := [0x66, 0xe9], extra := [88, 89, 1, 0, 7], mtime := 0x00024342, os := 3 } := by decide
+example : WFExtra { extra := [88, 89, 1, 0, 7, 66, 67, 2, 0, 1, 2] } := by
+  simp only [WFExtra]; rw [Rfc1952.subfields]; simp [Rfc1952.le16]; rw [Rfc1952.subfields]; simp [Rfc1952.le16, Rfc1952.subfields]
+example : hasEOF magicBlock = true := by decide
+example : (closeOutput toyCodec {} [[1], []]).2 = none := by rfl
+
+/-- the codec laws (with the size bound) are satisfiable -/
+example : ∃ c : Codec, Bounded c.toCodecFns := ⟨Toy.codec, Toy.bounded⟩
+/-- an instance of the stream theorems for a concrete script, header and the toy codec -/
+example := stream_conformant Toy.codec { name := [0x66], extra := [88, 89, 1, 0, 7], mtime := 0x00024342 }
+  (by simp only [WFExtra]; rw [Rfc1952.subfields]; simp [Rfc1952.le16, Rfc1952.subfields])
+  [Op.write [1, 2, 3], Op.flush, Op.write [4], Op.close] rfl
+
 end Hts.Props.C08
